@@ -216,6 +216,14 @@ func runC33(c *Ctx) []Obligation {
 	}
 	out := c.Rows(rows)
 	out = append(out, c.sessionDeterminism(P))
+	// the session key (the seed of node selection) is the hash of exactly (app key, chain, block hash)
+	out = append(out, c.Rows([]Row{
+		{Prop: P, ID: "sessionkey.seed-app", Fn: "x/pocketcore/types.NewSessionKey", Target: StoreTo(`^var:complit\.AppPublicKey$`).ExceptVal(`^appPubKey$`), Why: "the seed carries the application key given"},
+		{Prop: P, ID: "sessionkey.seed-chain", Fn: "x/pocketcore/types.NewSessionKey", Target: StoreTo(`^var:complit\.NonNativeChain$`).ExceptVal(`^chain$`), Why: "the chain given"},
+		{Prop: P, ID: "sessionkey.seed-blockhash", Fn: "x/pocketcore/types.NewSessionKey", Target: StoreTo(`^var:complit\.BlockHash$`).ExceptVal(`^blockHash$`), Why: "and the block hash given"},
+		{Prop: P, ID: "sessionkey.is-hash-of-seed", Fn: "x/pocketcore/types.NewSessionKey", Target: RetNotMatch(0, `^x/pocketcore/types\.Hash\(encoding/json\.Marshal\(var:complit\)#0\)$|^nil$`), Why: "the key is the hash of the encoded seed and nothing else"},
+		{Prop: P, ID: "sessionkey.bad-inputs-rejected", Fn: "x/pocketcore/types.NewSessionKey", Assume: []Lit{T(`^nonnil\(x/pocketcore/types\.HashVerification\(blockHash\)\)$`)}, Target: Success(), Why: "a malformed block hash gives no key"},
+	})...)
 	// the candidate list comes from the validators-by-chain cache, keyed by (height, chain)
 	out = append(out,
 		c.keyInjective(P, "candidates.cache-key-injective", "types.GetCacheKey", "a colliding key would hand session selection the node list of another chain or height"),
